@@ -105,7 +105,7 @@ CHECKS = {
          "controlled-scheduler (CHESS-style) exploration of the real Chain with real OS threads: every schedule up to a preemption bound, lock state mirrored for deadlock detection",
          "c17",
          "Under --cfg grin_verif every util::RwLock acquisition/release, the LMDB writer lock and the store's polling loops report to a scheduler owned by the harness: exactly one registered thread runs at a time, a thread whose request cannot be granted is disabled (a parked writer blocks new readers, as in parking_lot), 'no thread enabled' = deadlock. Every schedule with <= 1 preemption (quick; <= 2 thorough) of harnesses of 2-3 threads x 1-3 operations chosen to collide (competing fork blocks + reader, header-first + block + reader, block + validate_tx + get_unspent, miner template + block; thorough adds reorg + readers, validate + header, compact + block + reader, segmenter + block) runs on a fresh copy of a prepared chain. Oracles: no deadlock/livelock/panic, operations return only what a correct node may return, a reported head names a stored block, observed total difficulty never decreases, the final best-chain state is one a sequential order of the operations produces, validate(false) passes.",
-         "Scheduling points are lock operations (data outside these locks is invisible to the scheduler); preemption bound 1/2; databases stay below the resize threshold here (the resize waiter is explored by C18's concurrent part); header-chain memory is excluded from the serializability comparison (process_block commits its header step separately by design). Quick: harnesses a b c d (forks/readers/pool/miner against block writers), r1 r2 (all 14 public read APIs against a block / header writer), e2 (Chain::compact against a block on a 90-block chain); thorough adds a2 g e f and bound 2 for a-d.",
+         "Scheduling points are lock operations (data outside these locks is invisible to the scheduler); preemption bound 1/2; databases stay below the resize threshold here (the resize waiter is explored by C18's concurrent part); header-chain memory is excluded from the serializability comparison (process_block commits its header step separately by design). Quick: harnesses a b c d (forks/readers/pool/miner against block writers), r1 r2 (all 14 public read APIs against a block / header writer), e2 (Chain::compact against a block on a 90-block chain); thorough adds a2 g e f and bound 2 for a-d. Harness c2: a block carrying an NRD kernel vs validate_tx of an NRD transaction of the same excess (the path that takes both write locks) vs a reader, on C13's NRD universe. Harness s: two API threads whose database reads end together, with the accesses to the atomics of the store's resize gate as scheduling points (hook b9a426d06), two preemptions; afterwards the node keeps writing until the database map must grow (30 s watchdog).",
          "DESIGN.md §4 C17 + Appendix A"),
  "C18": ("model_checking",
          "explicit-state exploration of batch operation sequences on the real LMDB Store against a nested-transaction map model; exhaustive growth sequences forcing map resizes; crash-point enumeration around commit",
